@@ -270,7 +270,7 @@ class Tensor:
     def grad(self, grad:'Tensor'):
         if not self.matches_shape(grad):
             raise RuntimeError(f"Attempt to assign grad ({grad.shape}) to  a Tensor ({self.shape}) that has a different shape")
-        self._grad = grad.data
+        self._grad = grad.data.astype(self.data.dtype) # own buffer, of this tensor's type, that backward can accumulate into
     
     @property
     def grad_fn(self) -> 'Tensor':
